@@ -38,8 +38,58 @@ BUDGET = {
 ZOO_NAMES = schemas.GROUP_V + schemas.GROUP_X
 
 
+_TEMPLATES = ["{x}", "{x} {y}", "{x}+", "{x} {y}*", "({x} | {y})", "{x}? {y}", "{x} {y}?", "({x} | {y})+", "{x}{{1,2}}", "{y} {x}"]
+
+
+def maze_spec(R: Draw) -> dict:
+    """Wrapper maze: 3-6 container types whose content mentions other containers in sequences, options and
+    choices, so that a type can appear as a first child both where it may and where it may not be the only child."""
+    n = R.int(3, 6)
+    conts = [f"w{i}" for i in range(n)]
+    nodes: dict = {"doc": {}, "para": {"content": "text*"}, "item": {}, "text": {}}
+    for i, c in enumerate(conts):
+        pool = [x for x in conts if x != c] + ["para", "item"]
+        x, y = R.choice(pool), R.choice(pool)
+        nodes[c] = {"content": R.choice(_TEMPLATES).format(x=x, y=y)}
+        if R.bool(0.15):
+            nodes[c]["attrs"] = {"k": {}}  # needs attributes: never a wrapper
+    tops = R.sample(conts + ["para"], R.int(1, 3))
+    lead = "para " if R.bool(0.5) else ""
+    nodes["doc"] = {"content": f"{lead}({' | '.join(tops)})*"}
+    order = ["doc"] + R.shuffle(conts + ["para", "item"]) + ["text"]
+    return {"nodes": {k: nodes[k] for k in order}, "marks": {}}
+
+
+def _maze_schema(R: Draw):  # noqa: ANN202
+    import copy as _copy
+
+    from prosemirror.model import Schema
+
+    from ..ref.schema import RefSchema, SpecError
+
+    for _ in range(6):
+        spec = maze_spec(R)
+        try:
+            rs = RefSchema(_copy.deepcopy(spec))
+        except SpecError:
+            continue
+        if not schemas.well_founded(rs):
+            continue
+        try:
+            lib = Schema(_copy.deepcopy(spec))
+        except Exception:  # noqa: BLE001, S112
+            continue
+        if schemas.default_choice_terminates(lib, rs):
+            return spec
+    return None
+
+
 def generate(R: Draw, tier: str) -> dict:
-    sref = schemas.pick_schema(R, ZOO_NAMES, p_random=0.6)
+    sref = None
+    if R.bool(0.4):
+        sref = _maze_schema(R)
+    if sref is None:
+        sref = schemas.pick_schema(R, ZOO_NAMES, p_random=0.6)
     lib, rs = schemas.get(sref)
     g = docgen(rs)
     hosts = [t for t in rs.node_names if not rs.leaf[t]]
